@@ -413,6 +413,12 @@ add('C05','auto-no-literal-needed-behind-a-parameter',SG,"				state != endByte |
 add('C02','auto-benign-in-parameter-flag',SG,"			if state == startByte { // 不在参数中的 } 只是普通字符，比如 /path}","			if inParam := state == startByte; inParam {",'silent')
 add('C02','auto-benign-exit-test-first',SG,"	if endIndex == l-1 {\n		return startIndex\n	}\n\n	return l","	if endIndex != l-1 {\n		return l\n	}\n	return startIndex",'silent')
 
+add('C02','auto-inner-brace-skips-the-comparison',SG,"			if state != startByte { // 参数中的 { 不是参数的起始位置，比如 {id:\\d{2}}\n				startIndex = i\n			}","			if state == startByte {\n				continue\n			}\n			startIndex = i",'violation:C02.R21')
+add('C03','auto-end-test-looks-at-the-last-byte',SG,"	if endIndex == l-1 {","	if l > 0 && s1[l-1] == endByte {",'violation:C03.R21')
+add('C17','auto-brace-test-before-the-back-off',SG,"		for l > 0 && !utf8.RuneStart(seg.Value[l]) {\n			l--\n		}\n		if l > 0 && seg.Value[l-1] == endByte { // 参数之后必须要有一个或以上的普通字符\n			return 0\n		}\n		return l","		if l > 0 && seg.Value[l-1] == endByte { // 参数之后必须要有一个或以上的普通字符\n			return 0\n		}\n		for l > 0 && !utf8.RuneStart(seg.Value[l]) {\n			l--\n		}\n		return l",'violation:C17.R11')
+add('C02','auto-benign-range-over-int',SG,"	for i := 0; i < l; i++ {\n		prev := state","	for i := range l {\n		prev := state",'silent')
+add('C02','auto-benign-empty-texts-first',SG,"	startIndex := -10\n	endIndex := -10\n	state := endByte","	if l == 0 {\n		return 0\n	}\n	startIndex := -10\n	endIndex := -10\n	state := endByte",'silent')
+
 for pid,entries in C.items():
     os.makedirs(os.path.join(base,pid),exist_ok=True)
     json.dump(entries,open(os.path.join(base,pid,'entries.json'),'w'),indent=1,ensure_ascii=False)
